@@ -135,6 +135,56 @@ def run(res, tier):
                 res.ob('HANDOFF', f.where(c), '%s.Remove in %s can reach a notify routine under the same guard' % (tbl, f.q.split('::')[-1]), reach, function=f.q,
                        how='notify candidates at lines %s' % [x.get('l') for x in cands], key='HANDOFF|%s|%s:%d' % (f.q, tbl, nh),
                        message='%s removes an entry from %s and no notify routine is reachable afterwards in the same critical section: waiting threads are never woken (lost wake-up / stall)' % (f.q, tbl))
+    # ---- round-2 additions
+    for f in sorted(funcs, key=lambda f: f.line):
+        for c in f.walk():
+            if c['k'] != 'CXXMemberCallExpr' or c.receiver() is None:
+                continue
+            tbl = A.strip_casts(c.receiver()).get('n')
+            m = (c.get('q') or '').split('::')[-1]
+            p = P.pos_of(f, c)
+            gs = [(f.nodes[g], t) for (g, t) in (C.guards_of_block(f, p[0]) if p else [])]
+            # (a) a waiter that gives up (the wait returned an error) removes ITS OWN registration
+            if tbl in ('_waitingReaderThreads', '_waitingWriterThreads') and m.startswith('Remove'):
+                on_error = any(P.is_status_test(P.strip_not(gn)[0]) == 'err' and t == P.strip_not(gn)[1] for (gn, t) in gs) or \
+                    any(P.is_status_test(P.strip_not(gn)[0]) == 'ok' and t != P.strip_not(gn)[1] for (gn, t) in gs)
+                if on_error:
+                    keyed = m == 'Remove' and c.args() and A.strip_casts(c.args()[0])['k'] == 'DeclRefExpr'
+                    res.ob('HANDOFF', f.where(c), '%s: a waiter that times out removes its own entry from %s (by thread id)' % (f.q.split('::')[-1], tbl), bool(keyed), function=f.q,
+                           key='HANDOFF|%s|%s:own-entry' % (f.q, tbl),
+                           message='%s cleans up after a failed wait with %s.%s(): a waiter that is not at that end of the queue deletes another, still blocked, thread\'s registration and leaves its own '
+                                   'stale entry behind; the deleted thread is never notified again' % (f.q, tbl, m))
+            # (b) a thread leaves _executingThreads only when it holds the lock in neither mode
+            if tbl == '_executingThreads' and m == 'Remove':
+                fields = set()
+                for (gn, t) in gs:
+                    if not t:
+                        continue
+                    for x in gn.walk():
+                        if x['k'] == 'MemberExpr' and x.get('n') in ('_readOnlyRecurseCount', '_readWriteRecurseCount'):
+                            fields.add(x.get('n'))
+                        if x['k'] == 'DeclRefExpr' and 'd' in x:
+                            for v in f.walk():
+                                if v['k'] == 'VarDecl' and v.get('d') == x['d'] and v['ch']:
+                                    for y in v['ch'][0].walk():
+                                        if y['k'] == 'MemberExpr' and y.get('n') in ('_readOnlyRecurseCount', '_readWriteRecurseCount'):
+                                            fields.add(y.get('n'))
+                res.ob('ADMIT', f.where(c), '%s: leaving _executingThreads is guarded by both recursion counts' % f.q.split('::')[-1], len(fields) == 2, how=str(sorted(fields)), function=f.q,
+                       key='ADMIT|%s|leave-both-zero' % f.q,
+                       message='%s removes the thread from _executingThreads under a test of %s only: a thread that holds the lock in both modes and releases one of them is deregistered while it still '
+                               'holds the other, so another thread can acquire the lock for writing during its critical section' % (f.q, sorted(fields)))
+                # (c) and after leaving, the hand-off is unconditional (except: nobody can enter while the write count is still non-zero)
+                nots = [x for x in f.walk() if x.is_call() and NOTIFY.search(x.get('q') or '')]
+                esc = set()
+                for blk in f.blocks.values():
+                    if blk.cond is not None and blk.cond in f.nodes and len(blk.succ) == 2 and any(x['k'] == 'MemberExpr' and x.get('n') == '_totalReadWriteRecurseCount' for x in f.nodes[blk.cond].walk()):
+                        esc.add((blk.b, 0))
+                        esc.add((blk.b, 1))
+                okn = bool(nots) and P.must_follow(f, c, nots, escapes=esc)[0]
+                res.ob('HANDOFF', f.where(c), '%s: after leaving _executingThreads a notify routine runs on every path (only the write-count test may skip it)' % f.q.split('::')[-1], okn, function=f.q,
+                       key='HANDOFF|%s|unconditional' % f.q,
+                       message='%s makes the hand-off after leaving _executingThreads depend on a further condition: readers queued behind a writer that has since timed out are woken by nobody and sleep '
+                               'on an idle lock' % f.q)
     # ---- round-1 addition: RESTORE — the upgrade path gives up the caller's read locks in order to queue as a writer; whatever the outcome of that attempt, they are taken again
     res.rule('RESTORE', 'LockReadWriteAux: after the read locks of the caller have been released for an upgrade, every path to a return re-acquires them (LockReadOnly), except the error return of the '
                         'release itself: a failed try/timed upgrade leaves the lock state as it was', floor=1)
